@@ -97,6 +97,11 @@ CHECKS = {
             "AXIBurst2Beat: ALL classes (FIXED len 0..15, INCR len 0..255 within the 4 KB rule, WRAP len 1/3/7/15 at every start position of the wrap window, sizes 0..7, three capability sets) x start-address variants x beat-stall and request-gap patterns x back-to-back bursts, plus generated burst sequences with generated schedules; compared per beat at transfer-size granularity with the AMBA formulae, beat count, first/last, id, request consumed exactly once with the last beat, hold rule. AXIUpConverter / AXIDownConverter / AXIConverter (ratios 2/4/8, 8..256 bit, 1-2 outstanding, both AW/W orders, error ranges): same bytes in the same order, R beats complete with last on the final one, exactly one B per burst, ids echoed, legal burst parameters and hold rule towards the slave.",
             "Trusted: Migen's simulator, harness agents, the AMBA formulae as transcribed (cross-checked by two independent implementations). Inside the converters' documented support only (full-width beats; up: aligned start and len+1 a multiple of the ratio); narrow transfers / FIXED len>0 down / single-beat reads through an up-converter are outside and fail on the real code (recorded in DESIGN.md).",
             "DESIGN.md section 4 / C10"),
+    "C14": ("exploration",
+            "property-based testing (Hypothesis): round trip export text -> parsed accessor sequence -> bus cycles on the simulated finalised SoC -> the register's own signal; byte-placement oracle for memory images",
+            "Generated CPU-less SoCCores (wishbone/axi-lite/axi x 32/64-bit bus x shared/crossbar x CSR paging x CSR address width x CSR origin x 1..4 peripherals with generated storages/statuses of 1..70 bits and CSR-mapped memories, fixed CSR slots, SRAM sizes) are finalised, exported with the real get_csr_header / get_csr_json / get_csr_csv, and simulated with a test master attached through the SoC's own adapter path: every published writable register is written through its accessor sequence and its storage signal must hold the value while all other storages keep theirs; every drivable status is read back through its published sequence; CSR memory windows and the SRAM region are accessed at first/last word; header, JSON and CSV must agree; CONFIG_CSR_DATA_WIDTH must match. Images: get_mem_data for generated files, widths 32/64/128, both endiannesses, multi-region maps: every source byte at word (base+k)//B, lane per endianness.",
+            "Trusted: Migen's simulator, tracer shim, the regex parser of the generated header. Known findings excluded by construction and replayed: csr_data_width=8 stride, little ordering vs big-endian accessors, big-endian images wider than 32 bit. SVD, interrupt numbers (needs a CPU) and linker regions are not yet part of the check.",
+            "DESIGN.md section 4 / C14"),
 }
 
 NOT_YET = {}
